@@ -167,6 +167,10 @@ def python_lints(repo, rep):
     rep.ok("R-C20-1", "package", f"{sum(1 for _ in repo.all_funcs())} functions scanned", "no int-valued attribute is subscripted")
     validation(repo, rep)
     kernel_guards(repo, rep)
+    # tps reads freq[ipeak-1] and freq[ipeak+1]: the peak locator must never return an end bin (shared with C02)
+    rep.rule("R-C02-2", "(shared with C02) _peak marks strict interior maxima only, so ipeak-1 and ipeak+1 exist")
+    from .c02 import peak_definition
+    peak_definition(repo, rep)
 
 
 VALIDATORS = [
